@@ -371,6 +371,12 @@ func (h *Handler) handleCopyMove(w http.ResponseWriter, r *http.Request) (status
 		// remove the source along with the destination.
 		return http.StatusForbidden, errInvalidDestination
 	}
+	if s := slashClean(src); s == "/" || strings.HasPrefix(slashClean(dst), s+"/") {
+		// The destination lies inside the source. Overwriting it would
+		// remove part of the source before anything is copied or moved,
+		// and a collection cannot be copied or moved into itself.
+		return http.StatusForbidden, errInvalidDestination
+	}
 
 	ctx := r.Context()
 
